@@ -169,3 +169,5 @@ def plan(tier):
         "shrink": "hypothesis",
         "budget_s": 150 if quick else 1500,
     }
+
+RULE += (' Boundary trees also include chains of single children 40 / 120 / 300 levels deep; codec objects are created per case.')
